@@ -612,10 +612,15 @@ impl Interval {
     pub fn mix(self: Interval, rhs: Interval) -> Interval {
         // We'll treat NANs as invalid values instead of valid bitwise seeds,
         // just to be on the safe side.
+        //
+        // A zero interval contains both `+0.0` and `-0.0` (which compare
+        // equal but have different bit patterns), so it's also ambiguous.
         if self.has_nan()
             || rhs.has_nan()
             || self.lower().to_bits() != self.upper().to_bits()
             || rhs.lower().to_bits() != rhs.upper().to_bits()
+            || self.lower() == 0.0
+            || rhs.lower() == 0.0
         {
             f32::NAN.into()
         } else {
@@ -631,7 +636,13 @@ impl Interval {
     pub fn rand(&self) -> Interval {
         // We'll treat NANs as mystery values here, instead of as valid bitwise
         // seeds.  This is conservative but should be fine.
-        if self.has_nan() || self.lower().to_bits() != self.upper().to_bits() {
+        //
+        // A zero interval contains both `+0.0` and `-0.0` (which compare
+        // equal but have different bit patterns), so it's also ambiguous.
+        if self.has_nan()
+            || self.lower().to_bits() != self.upper().to_bits()
+            || self.lower() == 0.0
+        {
             Interval::new(0.0, 1.0)
         } else {
             crate::rng::rand(self.lower().to_bits()).into()
